@@ -32,7 +32,11 @@ def _replay_chunk(args):
         for lay in layouts:
             def on_v(idx, cat, msg, hist=hist, lay=lay):
                 out.append((idx, cat + (':fortran-cores' if lay == 'F' else ''), msg, hist))
-            calls += pool.replay(tt_mod, hist, on_v, fortran=(lay == 'F'))
+            try:
+                with common.watchdog():
+                    calls += pool.replay(tt_mod, hist, on_v, fortran=(lay == 'F'))
+            except common.CallTimeout as e:
+                on_v(len(hist) - 1, 'timeout', 'the replay of one history did not finish (%s)' % e)
     return calls, out
 
 
